@@ -465,6 +465,60 @@ example : langBestMatch (mk langNeg [("en".toList, Q.one)]) ["english-x".toList,
 example : langBestMatch (mk langNeg [("en-US".toList, ⟨5, 1⟩), ("en-GB".toList, ⟨9, 1⟩)])
     ["de".toList, "en".toList] = some "en".toList := by decide
 
+/-- full-strength reading of "an offer whose best range has q=0 is never chosen" for
+`LanguageAccept.best_match` including its fallbacks -/
+def LangZeroNeverChosen : Prop :=
+  ∀ (self : List (Str × Q)) (offers : List Str) (r : Str), langBestMatch self offers = some r →
+    ∀ ci q, bestSingle langNeg self r = some (ci, q) → Q.le q Q.zero = false
+
+/-- Known finding F17c: the full-strength form is false. For `en-US;q=0, *` and the offer `en_us`
+the exact stage finds the offer refused (q=0) and returns nothing, but the fallback `Accept` of
+primary tags `[("en", 0), ("*", 1)]` then matches `en_us` through `*`. -/
+theorem lang_zero_never_chosen_full_false : ¬ LangZeroNeverChosen := by
+  intro h
+  have := h (mk langNeg [("en-US".toList, Q.zero), ("*".toList, Q.one)]) ["en_us".toList]
+    "en_us".toList (by decide) "en-US".toList Q.zero (by decide)
+  revert this
+  decide
+
+/-- ... and so is it through the last stage: `en-US;q=0, en;q=0.5` with the offer `en-US`. -/
+theorem lang_zero_chosen_stage3 :
+    langBestMatch (mk langNeg [("en-US".toList, Q.zero), ("en".toList, ⟨5, 1⟩)]) ["en-US".toList]
+      = some "en-US".toList ∧
+    quality langNeg (mk langNeg [("en-US".toList, Q.zero), ("en".toList, ⟨5, 1⟩)]) "en-US".toList
+      = some Q.zero := by decide
+
+/-- `_partial`: whenever the exact stage decides (some offer has positive quality under exact tag
+matching), the chosen offer's most specific matching range has positive q. Excluded: exactly the
+results of the two fallback stages (F17c). -/
+theorem lang_zero_never_chosen_partial (self : List (Str × Q)) (offers : List Str) (r : Str)
+    (h : langBestMatch self offers = some r) (hexact : bestMatch langNeg self offers ≠ none) :
+    ∀ ci q, bestSingle langNeg self r = some (ci, q) → Q.le q Q.zero = false := by
+  cases h1 : bestMatch langNeg self offers with
+  | none => exact absurd h1 hexact
+  | some r1 =>
+    have : langBestMatch self offers = some r1 := lang_exact_stage self offers r1 h1
+    rw [this] at h
+    simp only [Option.some.injEq] at h
+    subst h
+    obtain ⟨_, _, ci0, q0, _, hb, hpos, _, _⟩ :=
+      bestMatch_optimal langNeg specLe_totalPre qle_totalPre self offers r1 h1
+    intro ci q hb'
+    rw [hb] at hb'
+    simp only [Option.some.injEq, Prod.mk.injEq] at hb'
+    rw [← hb'.2]; exact hpos
+
+example : langBestMatch (mk langNeg [("en-US".toList, ⟨5, 1⟩)]) ["en_us".toList] = some "en_us".toList ∧
+    bestMatch langNeg (mk langNeg [("en-US".toList, ⟨5, 1⟩)]) ["en_us".toList] ≠ none := by decide
+
+/-- The fallback stages only ever pick an offer that the exact stage did not match at all or found
+refused: this is exactly the family of F17c. -/
+theorem lang_fallback_exact_quality (self : List (Str × Q)) (offers : List Str) (r : Str)
+    (h : langBestMatch self offers = some r) (hfb : bestMatch langNeg self offers = none) :
+    r ∈ offers ∧ ∀ ci q, bestSingle langNeg self r = some (ci, q) → Q.le q Q.zero = true := by
+  have hm := (lang_result_sound self offers r h).1
+  exact ⟨hm, (bestMatch_none_iff langNeg specLe_totalPre qle_totalPre self offers).mp hfb r hm⟩
+
 /-- The last stage never fails to map the matched primary tag back to an offer (the `next(...)`
 in the code cannot raise `StopIteration`): the result is `None` exactly when all three stages find
 no offer of positive quality. -/
